@@ -2,11 +2,15 @@
 # Build the framework from files on disk only (offline): Lean library + model driver, harness binaries.
 set -e
 here=$(cd "$(dirname "$0")" && pwd)
-cd "$here/lean"
-lake build
 cd "$here/harness"
 [ -f Cargo.lock ] || cp /repo/Cargo.lock Cargo.lock
 CARGO_NET_OFFLINE=true cargo build --release --offline -p vh-proto
 if [ -d vh-client/src/bin ] && ls vh-client/src/bin/*.rs >/dev/null 2>&1; then
   CARGO_NET_OFFLINE=true cargo build --release --offline -p vh-client
 fi
+CARGO_NET_OFFLINE=true cargo build --release --offline -p vh-translate
+# structural tie: regenerate the Lean definitions from /repo's parser sources, then build everything
+"$here/tie/regen.sh"
+cd "$here/lean"
+lake build
+lake build ImapVerif.Gen.Transfer
